@@ -8,53 +8,12 @@ mechanism signatures reported).  Nothing is ever committed to /repo.  usage: too
 import json, os, subprocess, sys, tempfile, shutil
 
 ROOT = "/verif"
-NEEDS = {
-    "C01-1": "a relative name text whose last label ends in an escaped dot (`a\\.`), parsed with an origin",
-    "C01-2": "compression on, a multi-label name straddling message offset 0x3FFF, and a later name reusing one of its suffixes",
-    "C02-1": "a LOC record decoded from wire whose coordinate in milliseconds of arc does not survive float truncation (about 5% of values)",
-    "C02-2": "an RRSIG/SIG whose signer name has upper-case letters, encoded non-canonically",
-    "C03-1": "a record set dropped by truncation (TooBig rollback) followed by a compressible name equal to or below its owner, e.g. the TSIG key name",
-    "C03-2": "a dynamic update for a zone whose class is not IN (CH/HS) carrying a delete or prerequisite form, rendered then parsed",
-    "C04-1": "a TSIG record from wire whose error field is 4096..65535: accepted, but to_text then raises a bare ValueError",
-    "C04-2": "continue_on_error=True and a defect inside the question section",
-    "C05-1": "a TXT-like string that is valid UTF-8 containing a C1 control character, printed with RdataStyle(txt_is_utf8=True)",
-    "C05-2": "an rdata name field holding the relative single-label name `@`, printed relativized",
-    "C06-1": "successor() on a name whose last incrementable octet is upper-case `Z`, at maximal length or with prefix_ok=False",
-    "C06-2": "names containing the octet `[`, compared with letters or `{`",
-    "C07-1": "an RRSIG/SIG rdataset that already declares a covered type but is currently empty, then add() of another covered type",
-    "C07-2": "symmetric difference (^, ^=) of rdatasets with a lower right-hand TTL, a foreign-type operand, or a singleton type",
-    "C08-1": "same change as C03-1, found independently for the truncation property",
-    "C08-2": "padding requested, TSIG key name compressible against the message, and an unpadded size that is already block-aligned",
-    "C09-1": "ZoneStyle(default_ttl=0) with rdatasets whose TTL is 0",
-    "C09-2": "an out-of-zone record followed directly by blank-owner continuation lines",
-    "C10-1": "versioned/btree zone, add() (not replace) onto an rdataset committed earlier, with a TTL greater than the existing one",
-    "C10-2": "plain/versioned zone, a transaction whose every change is a delete that empties its node",
-    "C11-1": "reader(id=) of an already pruned version lying less than len(retained) below the oldest retained id",
-    "C11-2": "two readers open on different versions while something triggers pruning",
-    "C12-1": "the active writer ends between a blocked writer's lock release and its enqueue (lost wake-up)",
-    "C12-2": "three writers: a newcomer runs its admission block between the wake-up of the only waiter and that waiter re-acquiring the lock",
-    "C13-1": "an IXFR request answered AXFR-style with the leading SOA alone in the first message",
-    "C13-2": "an IXFR request answered AXFR-style when the local zone holds records the server no longer has",
-    "C14-1": "a TSIG key name with upper-case letters",
-    "C14-2": "keyring given as a single Key or a callable, and the TSIG owner name on the wire altered to another parseable name",
-    "C15-1": "a relativized zone whose origin has upper-case letters (ZONEMD digest / to_digestable with origin)",
-    "C15-2": "the canonically last NSEC owner is a delegation that also holds glue (a type other than NS/DS)",
-    "C16-1": "async resolver only: every server failed once and the lifetime runs out during the back-off sleep",
-    "C16-2": "resolver cache on and a query in a class other than IN answered NXDOMAIN",
-    "C17-1": "LRU cache: a get of an expired entry followed by enough puts to reach max_size",
-    "C17-2": "simple cache: the periodic cleaning pass falls due in a put while another thread mutates the cache",
-    "C18-1": "a datagram/stream message from the right peer with the right id and question but a different opcode",
-    "C18-2": "a short TCP write immediately followed by a would-block",
-    "C19-1": "in_order tree, frozen and cloned, insert into the clone next to a non-full left sibling leaf",
-    "C19-2": "overwriting a key that is exactly the median of a full non-root node on its path",
-    "C20-1": "a cut committed by an earlier transaction, then a later transaction adds an NS above it",
-    "C20-2": "bounds() of an absent name outside every cut whose nearest predecessor is a delegation point",
-}
-ALSO = {"C03-1": ["C08"]}
+NEEDS = json.load(open(os.path.join(ROOT, "seeded", "NEEDS.json")))
+ALSO = {"C03-1": ["C08"], "C03-5": ["C08"]}
 
 args = [a for a in sys.argv[1:] if not a.startswith("--")]
 tier = sys.argv[sys.argv.index("--tier") + 1] if "--tier" in sys.argv else "quick"
-ids = args or sorted(os.listdir(os.path.join(ROOT, "seeded")))
+ids = args or sorted(x for x in os.listdir(os.path.join(ROOT, "seeded")) if os.path.isdir(os.path.join(ROOT, "seeded", x)))
 assert subprocess.run(["git", "-C", "/repo", "status", "--porcelain"], capture_output=True, text=True).stdout.strip() == "", "/repo is not clean"
 head = subprocess.run(["git", "-C", "/repo", "rev-parse", "--short", "HEAD"], capture_output=True, text=True).stdout.strip()
 for sid in ids:
